@@ -52,10 +52,36 @@ def gen_specs(run):
                     tags.append((pi, sname, md))
         specs.append({"id": f"c10-{sid}", "group": "ristretto" if (sid % 4 == 3 and b <= 32) else "fm", "members": [mem], "derived": derived, "verifies": verifies,
                       "_tags": tags, "_conf": [b, T], "with_gens": False})
+    # whole batches across the internal chunks of 256: recover-only must return what recover-and-verify returns, position by position, also when a
+    # whole chunk carries no seed, and the verifying modes must agree on the verdict
+    pool = [gen.mk_member(rng, 2, 1, T=1, seed=True) for _ in range(2)] + [gen.mk_member(rng, 2, 1, T=1, seed=False) for _ in range(2)]
+    layouts = [("unseeded-chunk-first", ["u"] * 256 + ["s", "u", "s"]), ("seeded-ends", ["s"] + ["u"] * 511 + ["s"])]
+    if not quick:
+        layouts += [("middle-chunk-unseeded", ["s", "u"] * 128 + ["u"] * 256 + ["s"] * 5), ("random", [rng.choice("suu") for _ in range(600)])]
+    for name, kinds in layouts:
+        vm = []
+        for i, k_ in enumerate(kinds):
+            j = (i % 2) if k_ == "s" else 2 + (i % 2)
+            vm.append(gen.vmember(pool[j], j))
+        specs.append({"id": f"c10-chunks-{name}", "group": "fm", "members": pool, "with_gens": False, "log_merlin": False, "log_msm": False,
+                      "verifies": [{"mode": md, "vmembers": vm, "log": False} for md in ("RecoverAndVerify", "RecoverOnly", "VerifyOnly")],
+                      "_role": "chunks", "_conf": [name, len(kinds)]})
     return specs
 
 
 def oracle(run, s, o):
+    if s.get("_role") == "chunks":
+        rp = {"kind": "session", "spec": sessions.strip(s)}
+        rav, ro, vo_ = o["verifies"]
+        run.count(["c10chunks"] + s["_conf"], {"layout": s["_conf"][0], "members": s["_conf"][1], "results": [rav["result"][:20], ro["result"][:20], vo_["result"][:20]]})
+        run.bump("multi-chunk batches")
+        if rav["result"] != "ok" or vo_["result"] != "ok" or ro["result"] != "ok":
+            run.violation(f"valid multi-chunk batch ({s['_conf'][0]}): results {rav['result'][:50]} / {ro['result'][:50]} / {vo_['result'][:50]} in the three modes", rp)
+        elif rav["masks"] != ro["masks"]:
+            bad = [i for i, (x, y) in enumerate(zip(rav["masks"], ro["masks"])) if x != y]
+            run.violation(f"recover-only and recover-and-verify return different results for a batch of {s['_conf'][1]} ({s['_conf'][0]}): lengths {len(rav['masks'])}/{len(ro['masks'])}, "
+                          f"first differing positions {bad[:4]}", dict(rp, verify=1))
+        return
     b, T = s["_conf"]
     rp = {"kind": "session", "spec": sessions.strip(s)}
     true_mask = s["members"][0]["commit"][0]["r"]
@@ -114,7 +140,7 @@ def run(run: Run):
     return run.finish(
         "proof",
         "per configuration one valid and three invalid proofs x {no seed, the right seed, random seed, seed+1, seeds differing from the right one in one byte (top, 30, 16, low)} x "
-        "three modes: verdict equality across seeds and modes, mask equality between the two recovering modes, inequality with the true mask (componentwise) under every "
+        "three modes; multi-chunk batches (a whole chunk without a seed before / between seeded members) in the three modes, the two recovering modes compared position by position: verdict equality across seeds and modes, mask equality between the two recovering modes, inequality with the true mask (componentwise) under every "
         "wrong seed, no error from recovery; selected runs compared with the Coq model; distinct by (bits, T, validity, seed kind, mode, outcome)",
         [],
         TRUSTED)
